@@ -1,8 +1,16 @@
-"""C19 - finite-difference machinery of dadi.Godambe (get_hess / get_grad / hessian_elem).
+"""C19 - uncertainty machinery of dadi.Godambe.
 
-The real functions are run on f(p) = c + g.p + 1/2 p^T Q p with every coefficient, every p_i and eps
-symbolic; the executor enumerates the stencil regimes per parameter (p_i = 0, p_i*eps < 1e-6 -> one-sided
-forward stencils with absolute step eps; otherwise central stencils with step eps*p_i).
+Part 1 (exact, the core): the real hessian_elem / get_hess / get_grad are run on f(p) = c + g.p + 1/2 p^T Q p with
+every coefficient, every p_i and eps symbolic; the executor enumerates the stencil regimes per parameter
+(p_i = 0, p_i*eps < 1e-6 -> one-sided forward stencils with absolute step eps; otherwise central stencils with
+step eps*p_i): 3^k paths.  z3 proves H = Q on every path, grad = g + Qp (central), = g + Qp + 1/2 Q_ii h_i
+(forward; exact for linear f), and that every evaluation point lies on the documented stencil.
+
+Part 2 (fragment): get_godambe / FIM_uncert / GIM_uncert / LRT_adjust / Wald_stat / score_stat are run on Poisson
+models linear in their parameters with symbolic basis spectra, data, bootstraps, thetas, parameters and eps;
+log / gammaln / sqrt are uninterpreted.  Obligations: assembly identities against an independent Poisson
+log-likelihood + textbook stencils, the definitions of the statistics, bootstrap-order independence,
+independence from earlier calls sharing the module cache, sum_chi2_ppf on scalars and arrays.
 """
 import itertools
 from fractions import Fraction as Fr
@@ -14,18 +22,83 @@ from engine import shims
 from engine import symreal as S
 
 META = dict(
-    explanation='(filled in below)',
-    functions=['dadi.Godambe.hessian_elem', 'dadi.Godambe.get_hess', 'dadi.Godambe.get_grad'],
-    files=['dadi/Godambe.py'],
-    bounds=dict(quick='', thorough=''),
-    outside=[],
-    stubs=[],
+    explanation=(
+        'Part 1: Godambe.hessian_elem/get_hess/get_grad executed on numpy object arrays of z3 reals for '
+        'f(p)=c+g.p+1/2 p^T Q p with all coefficients, all p_i and eps in [1e-4,1e-1] symbolic; all 3^k stencil-regime '
+        'paths (p_i=0 | p_i*eps<1e-6 | central) are explored and on each z3 proves H[i][j]=Q_ij for all i,j, '
+        'grad_i = g_i+(Qp)_i on central parameters and = g_i+(Qp)_i+Q_ii*h_i/2 on one-sided ones (hence exact for '
+        'linear f; a separate Q=0 unit states that directly), grad exact for quadratics with two_pt_deriv_test=True, '
+        'every evaluation point = p + documented offsets (forward-only with absolute step eps for zero/tiny '
+        'parameters, +-eps*p_i otherwise), extra args passed through, p0 not modified, list and ndarray p0; '
+        'hessian_elem directly with symbolic absolute per-parameter steps and all one_sided flag patterns. '
+        'Part 2: on linear Poisson models M_i(p)=A_i+sum_j p_j B_ji with A>=0 (A=0 included; all A, B, data, bootstraps, relative thetas, p, eps '
+        'symbolic within a box) the real get_godambe/FIM_uncert/GIM_uncert/LRT_adjust/Wald_stat/score_stat run through '
+        'the real Inference.ll / optimal_sfs_scaling / Spectrum code; z3 proves (a) H=-FDHess[ll(data)], '
+        'J=mean_b g_b g_b^T, cU=mean_b g_b with g_b=FDGrad[ll(boot_b, theta_b)], GIM=H J^-1 H against an independent '
+        'Poisson log-likelihood and textbook stencils, incl. the theta augmentation of multinom=True '
+        '(theta_opt=sum(data)/sum(model)); (b) the statistics equal their definitions (sqrt diag H^-1, sqrt diag '
+        'GIM^-1, m/tr(J H^-1), d^T GIM d, d^T H d, cU^T J^-1 cU, cU^T H^-1 cU) for nested index sets; (c) all '
+        'outputs are invariant under permutations of the bootstrap list; (d) results of call sequences sharing the '
+        'module-level cache equal those of a fresh cache (changed non-nested parameters, parameters, data, grid '
+        'points, eps, model function, hash-colliding callables); (e) sum_chi2_ppf returns 1-sum_d w_d CDF_d(x) '
+        '(CDF_0 = [x>0]) for scalar (scalar out) and list/tuple/ndarray input (same-length array out), rejects '
+        'weights not summing to 1; boot_theta_adjusts with multinom=True is rejected.'),
+    functions=['dadi.Godambe.hessian_elem', 'dadi.Godambe.get_hess', 'dadi.Godambe.get_grad',
+               'dadi.Godambe.get_godambe', 'dadi.Godambe.FIM_uncert', 'dadi.Godambe.GIM_uncert',
+               'dadi.Godambe.LRT_adjust', 'dadi.Godambe.Wald_stat', 'dadi.Godambe.score_stat',
+               'dadi.Godambe.sum_chi2_ppf', 'dadi.Inference.ll', 'dadi.Inference.ll_per_bin',
+               'dadi.Inference.optimal_sfs_scaling', 'dadi.Numerics.intersect_masks', 'dadi.Spectrum_mod.Spectrum.log'],
+    files=['dadi/Godambe.py', 'dadi/Inference.py', 'dadi/Spectrum_mod.py', 'dadi/Numerics.py'],
+    bounds=dict(
+        quick='Part 1: k=1..3 parameters (all 3^k regime paths) for get_hess, get_grad (quadratic, linear, '
+              'two_pt_deriv_test), k=2 with extra args / ndarray p0; hessian_elem k=2, all (ii,jj), one_sided in '
+              '{None} + all 4 flag patterns, p_i=0 forks.  Part 2: 3 unmasked bins (sample size 4), k<=2 model '
+              'parameters, 2 bootstraps (3 for the permutation units, 2 of the 5 non-trivial permutations), nested '
+              'index sets [0],[1],[0,1], multinom True/False, with/without relative thetas; values in the box '
+              'p,f in (0,100], A in [0,100], B in [1/100,100], data/bootstraps in [0,1000], thetas in [1/10,10], eps in '
+              '[1e-4,1e-1]; both stencil regimes of every positive parameter (incl. theta_opt); chi2: 1-2 points, '
+              '2-3 weights, scalar/list/tuple/ndarray.',
+        thorough='Part 1: k=1..5 (k=5 split by the regimes of the leading parameters: 243 paths), args/ndarray '
+                 'variants k<=3, hessian_elem k=3 with all 8 flag patterns.  Part 2: as quick plus k=3 parameters '
+                 '(multinom=False), 4 bins (k=2), 3 bootstraps with thetas, all 5 non-trivial permutations of 3 '
+                 'bootstraps, nested sets [0,2],[2,0],[1] of 3, multinom with both nested parameters / with k=1, chi2 up '
+                 'to 3 points and 4 weights.'),
+    outside=['closeness of the finite-difference Fisher/Godambe quantities to the analytic closed forms '
+             '(sum_i D_i B_ik B_il / M_i^2 etc.): the O(eps^2) truncation error of differencing log is an analytic '
+             'fact about log, which is uninterpreted here; what is proved instead is that the code applies exactly '
+             'the (separately verified exact-on-quadratics) stencils to the exact Poisson log-likelihood and '
+             'assembles H, J, cU, GIM and the statistics by their definitions',
+             'log=True (derivatives w.r.t. log-parameters: exp/log of symbolic parameters)',
+             'numerical values of scipy chi2.cdf, gammaln, numpy.linalg.inv (stubbed), float round-off, singular H/J',
+             'models that are not positive on the stencil points (numpy.ma masking of log), data that are all zero '
+             'with multinom=True (theta_opt=0), non-pure model functions',
+             'parameters k>5 (part 1); part 2: k>3, more than 4 bins, more than 3 bootstraps, multinom=True with k>2 '
+             '(theta_opt regime forks with a quotient of sums time out in z3 under load)'],
+    stubs=['numpy array constructors inside Godambe/Inference/Spectrum_mod/Numerics -> object arrays (engine shim)',
+           'numpy.linalg.inv inside Godambe -> exact adjugate/determinant inverse for object matrices (local stub; '
+           'its contract A.inv(A)=I is proved for symbolic 1x1..3x3 in unit linalg-stub-contract)',
+           'scipy.special.gammaln inside Inference -> uninterpreted LGAMMA; numpy log/sqrt on Sym -> uninterpreted '
+           'LOG/SQRT; scipy.stats.distributions.chi2.cdf -> uninterpreted CHI2CDF(x,d)',
+           'numpy.ma.log domain test inside Spectrum.log: `model entry <= 0` is answered False without forking when '
+           'the preconditions alone imply positivity (sign rules + one small query per distinct term), otherwise it '
+           'forks as usual',
+           'numpy.atleast_1d inside Godambe -> object ndarray whose `> 0` forks per entry and yields a boolean mask',
+           'equalities between large LOG-laden terms are discharged syntactically or after generalising the '
+           "oracle's H/gradient entries and remaining uninterpreted applications to fresh reals (validity of the "
+           'generalisation implies the concrete claim); refutations are always confirmed by a float replay of the '
+           'real code (solver values first, then deterministic generic inputs per stencil regime)'],
     assumptions=['doubles modelled as reals; the float literal 1e-6 is taken at its exact binary value',
-                 'recorded denominators != 0 (eps > 0 and p_i != 0 on central paths make them non-zero)'],
+                 'recorded denominators != 0 (eps > 0 and p_i != 0 on central paths make the step sizes non-zero; '
+                 'H, J, GIM non-singular where inverted)',
+                 'model functions are pure (same arguments -> same spectrum), which is what the cache relies on',
+                 'CPython recycles the id of a garbage-collected closure (only relevant for detecting the stale-cache '
+                 'defect fixed in 02ac0c1: units cache-stale-*)'],
 )
 
 THR = Fr(1e-6)          # the literal in Godambe.get_hess / get_grad, at its exact binary value
 EPS_LO, EPS_HI = Fr(1, 10000), Fr(1, 10)
+# value box of the Poisson-model units (keeps solver models and their float replays well-conditioned)
+PMAX, BMIN, BMAX, DMAX = 100, Fr(1, 100), 100, 1000
 
 
 def _setup():
@@ -323,21 +396,27 @@ _POS = {}
 _CURENV = [None]
 
 
-def _pos_term(t, pre, sig):
-    """Sufficient test `pre => t > 0`: sign rules for products, quotients and sums of positive terms, one small
+def _pos_term(t, pre, sig, strict=True):
+    """Sufficient test `pre => t > 0` (strict) / `t >= 0`: sign rules for products, quotients and sums, one small
     solver query (fresh solver, hypotheses = preconditions only) for anything else.  Memoised per term."""
     import z3
-    key = (sig, t.get_id())
+    key = (sig, t.get_id(), strict)
     hit = _POS.get(key)
     if hit is not None and z3.eq(hit[0], t):
         return hit[1]
     res = None
     if z3.is_rational_value(t):
-        res = t.numerator_as_long() > 0
-    elif z3.is_app(t):
+        res = (t.numerator_as_long() > 0) if strict else (t.numerator_as_long() >= 0)
+    elif z3.is_app(t) and t.num_args() > 0:
         kind = t.decl().kind()
-        if kind in (z3.Z3_OP_MUL, z3.Z3_OP_DIV, z3.Z3_OP_ADD) and t.num_args() > 0:
-            if all(_pos_term(c, pre, sig) for c in t.children()):
+        ch = t.children()
+        if kind in (z3.Z3_OP_MUL, z3.Z3_OP_DIV):
+            if all(_pos_term(c, pre, sig) for c in ch):
+                res = True
+        elif kind == z3.Z3_OP_ADD:
+            # sum of non-negative terms (at least one of them positive when strict)
+            pos = [_pos_term(c, pre, sig) for c in ch] if strict else [False] * len(ch)
+            if all(p or _pos_term(c, pre, sig, strict=False) for p, c in zip(pos, ch)) and (any(pos) or not strict):
                 res = True
     if res is None:
         sv = z3.Solver()
@@ -346,7 +425,7 @@ def _pos_term(t, pre, sig):
             sv.add(c)
         for d in S.collect_denominators([t]):
             sv.add(d != 0)
-        sv.add(t <= 0)
+        sv.add(t <= 0 if strict else t < 0)
         res = (sv.check() == z3.unsat)
     if len(_POS) > 50000:
         _POS.clear()
@@ -423,14 +502,183 @@ def _sqrt(x):
     return math.sqrt(x) if x >= 0 else float('nan')
 
 
-def _eqv(env, label, a, b, struct=False, rtol=1e-5):
+_ATOMS = []          # (z3 term, fresh z3 Real) pairs: the oracle's H entries and per-bootstrap gradient entries
+
+
+def _register_atoms(vals):
+    import z3
+    for v in vals:
+        if isinstance(v, S.Sym) and v.c is None and not z3.is_const(v.t):
+            if not any(z3.eq(v.t, t) for t, _ in _ATOMS):
+                _ATOMS.append((v.t, z3.Real('atom%d' % len(_ATOMS))))
+
+
+def _abstract(x):
+    """Generalisation: every occurrence of a registered atom (a big LOG-laden term) is replaced by a fresh real.
+    A claim valid for arbitrary values of the fresh reals is valid for the atoms' actual values."""
+    import z3
+    if not _ATOMS or x.c is not None:
+        return x
+    return S.Sym(z3.substitute(x.t, *_ATOMS))
+
+
+_UFVARS = {}
+_REFUTED = [0]
+
+
+def _abstract_uf(x):
+    """Replace every outermost uninterpreted application (LOG, LGAMMA, SQRT, ...) by a fresh real, the same
+    one for syntactically identical applications."""
+    import z3
+    if x.c is not None:
+        return x
+    subs = []
+    seen = set()
+    stack = [x.t]
+    while stack:
+        u = stack.pop()
+        i = u.get_id()
+        if i in seen:
+            continue
+        seen.add(i)
+        if z3.is_app(u):
+            if u.decl().kind() == z3.Z3_OP_UNINTERPRETED and u.num_args() > 0:
+                hit = _UFVARS.get(i)
+                if hit is None or not z3.eq(hit[0], u):
+                    hit = (u, z3.Real('uf%d' % len(_UFVARS)))
+                    _UFVARS[i] = hit
+                subs.append(hit)
+            else:
+                stack.extend(u.children())
+    if not subs:
+        return x
+    return S.Sym(z3.substitute(x.t, *subs))
+
+
+def _has_uf(t, cap=200000):
+    import z3
+    seen = set()
+    stack = [t]
+    while stack:
+        u = stack.pop()
+        i = u.get_id()
+        if i in seen:
+            continue
+        seen.add(i)
+        if len(seen) > cap:
+            return True
+        if z3.is_app(u):
+            if u.decl().kind() == z3.Z3_OP_UNINTERPRETED and u.num_args() > 0:
+                return True
+            stack.extend(u.children())
+    return False
+
+
+def _pc_now():
+    import z3
+    ex = S.CUR
+    return [c if t else z3.Not(c) for c, t, _ in ex.trace] if ex is not None else []
+
+
+def _ground(t, subs):
+    """Value of the z3 term t under the substitution (True / False / Fraction) or None if not ground."""
+    import z3
+    r = z3.simplify(z3.substitute(t, *subs))
+    if z3.is_true(r):
+        return True
+    if z3.is_false(r):
+        return False
+    if z3.is_rational_value(r):
+        return Fr(r.numerator_as_long(), r.denominator_as_long())
+    return None
+
+
+def _witness_refutes(env, x, y):
+    """Pre-analysis, never a proof: look for a concrete rational point (deterministic generic inputs for each
+    pattern of stencil regimes, generic values for the generalised atoms / applications) that satisfies the
+    preconditions and the current path condition and at which x != y.  Returns the fixing equalities
+    [var == value, ...] or None.  With those fixings the refutation query is satisfiable by construction, so the
+    harness gets its counterexample at once instead of searching a large nonlinear space."""
+    import z3
+    names = sorted(env.vars)
+    npar = len([n for n in names if n.startswith('p') and n[1:].isdigit()])
+    pc = _pc_now()
+    fv = S.free_vars([x, y])
+    extra = [v for n, v in sorted(fv.items()) if n not in env.vars]
+    for pattern in itertools.product([True, False], repeat=max(npar, 1)):
+        gen = _Generic(pattern)
+        subs = [(env.vars[n].t, z3.RealVal(str(Fr(gen[n])))) for n in names]
+        if not all(_ground(c, subs) is True for c in list(env.pre) + pc):
+            continue
+        subs2 = subs + [(v, z3.RealVal(str(Fr(7 + 13 * i * i + 3 * i, 11 + i)))) for i, v in enumerate(extra)]
+        if _ground(x != y, subs2) is True:
+            return [v == val for v, val in subs2]
+    return None
+
+
+def _eq_core(env, label, a, b):
+    """One non-syntactic equality a == b of the Poisson part (symbolic run), see _eqv."""
+    import z3
+    a2, b2 = _abstract(a), _abstract(b)
+    a4, b4 = _abstract_uf(a2), _abstract_uf(b2)
+    if a4.c is not None or b4.c is not None:
+        env.eq(label + '~generalised', a4, b4)
+        return
+    fix = _witness_refutes(env, a4.t, b4.t)
+    if fix is not None:
+        env.eq(label + '~generalised@witness', a4, b4, pre=fix)
+        return
+    # z3's own normaliser (sorted sums) often makes the two sides identical, e.g. for re-ordered bootstrap sums
+    a3 = S.Sym(z3.simplify(a4.t, sort_sums=True))
+    b3 = S.Sym(z3.simplify(b4.t, sort_sums=True))
+    if a3.c is None and b3.c is None and z3.eq(a3.t, b3.t):
+        env.eq(label + '~generalised+normalised', a3, b3)
+        return
+    if not (_has_uf(a2.t, 20000) or _has_uf(b2.t, 20000)):
+        env.eq(label + '~abstracted', a2, b2)
+        return
+    pc = _pc_now()
+    v = S.prove_eq(a4, b4, list(env.pre), pc, (), 8000)
+    if v.status == 'unsat':
+        env.eq(label + '~generalised', a4, b4)
+        return
+    v2 = S.prove(a.t == b.t, list(env.pre), pc, (), 8000)
+    if v2.status == 'unsat':
+        env.holds(label, a == b)
+        return
+    env.eq(label + '~generalised', a4, b4)
+
+
+def _eqv(env, label, a, b, struct=False, rtol=1e-3):
     """Obligation a == b: exact in the symbolic run, relative tolerance on the float replay (the code and the
-    oracle both take finite differences in floats, whose round-off is ~1e-16/h^2)."""
+    oracle both take finite differences in floats, whose round-off is ~1e-16/h^2).
+    Symbolic: syntactically identical terms close at once.  Otherwise
+      1. the registered atoms (oracle H / gradient entries) are replaced by fresh reals and every remaining
+         outermost uninterpreted application by a fresh real (one per syntactically distinct application): a
+         generalisation of the claim, so its validity implies the concrete claim;
+      2. if a concrete generic point on the current path refutes the generalised claim, the obligation is
+         submitted with that point fixed (satisfiable by construction -> immediate counterexample, confirmed or
+         rejected by the float replay of the real code);
+      3. otherwise the generalised claim is the obligation when it is free of uninterpreted applications or
+         proves here; the concrete claim (one plain query, no division-free re-encoding of huge terms) when only
+         that proves (congruence needed); the generalised one if neither proves (-> inconclusive, never success).
+    struct=True peels matching outer SQRT(..) applications / divisions first (sufficient condition)."""
     if env.symbolic:
-        if struct:
-            env.eq_struct(label, a, b)
-        else:
+        import z3
+        a, b = S.Sym.lift(a), S.Sym.lift(b)
+        if a.c is not None or b.c is not None or z3.eq(a.t, b.t):
             env.eq(label, a, b)
+            return
+        if struct:
+            a2, b2 = _abstract(a), _abstract(b)
+            for n, (x, y) in enumerate(S.struct_pairs(a2.t, b2.t)):
+                x, y = S.Sym(x), S.Sym(y)
+                if x.c is not None or y.c is not None or z3.eq(x.t, y.t):
+                    env.eq('%s/part%d' % (label, n), x, y)
+                else:
+                    _eq_core(env, '%s/part%d' % (label, n), x, y)
+            return
+        _eq_core(env, label, a, b)
         return
     a, b = float(a), float(b)
     if a != a and b != b:
@@ -451,9 +699,13 @@ def _eqm(env, label, A, Bm, struct=False):
 
 # ---- textbook finite-difference operators with the documented step rule (independent oracle)
 def _shift(p, offs):
+    """p with q[i] = p[i] + o for (i, o) and q[i] = p[i] - o for (i, o, -1)."""
     q = list(p)
-    for i, o in offs:
-        q[i] = q[i] + o
+    for off in offs:
+        if len(off) == 3:
+            q[off[0]] = q[off[0]] - off[1]
+        else:
+            q[off[0]] = q[off[0]] + off[1]
     return q
 
 
@@ -464,7 +716,7 @@ def _fd_grad(env, F, p, eps):
         if one[i]:
             g.append((F(_shift(p, [(i, h[i])])) - F(p)) / h[i])
         else:
-            g.append((F(_shift(p, [(i, h[i])])) - F(_shift(p, [(i, -h[i])]))) / (2 * h[i]))
+            g.append((F(_shift(p, [(i, h[i])])) - F(_shift(p, [(i, h[i], -1)]))) / (2 * h[i]))
     return g
 
 
@@ -479,32 +731,38 @@ def _fd_hess(env, F, p, eps):
                 if one[i]:
                     e = (F(_shift(p, [(i, 2 * h[i])])) - 2 * F(_shift(p, [(i, h[i])])) + F0) / h[i] ** 2
                 else:
-                    e = (F(_shift(p, [(i, h[i])])) - 2 * F0 + F(_shift(p, [(i, -h[i])]))) / h[i] ** 2
+                    e = (F(_shift(p, [(i, h[i])])) - 2 * F0 + F(_shift(p, [(i, h[i], -1)]))) / h[i] ** 2
             elif one[i] or one[j]:
                 e = (F(_shift(p, [(i, h[i]), (j, h[j])])) - F(_shift(p, [(i, h[i])]))
                      - F(_shift(p, [(j, h[j])])) + F0) / (h[i] * h[j])
             else:
-                e = (F(_shift(p, [(i, h[i]), (j, h[j])])) - F(_shift(p, [(i, h[i]), (j, -h[j])]))
-                     - F(_shift(p, [(i, -h[i]), (j, h[j])])) + F(_shift(p, [(i, -h[i]), (j, -h[j])]))) \
+                e = (F(_shift(p, [(i, h[i]), (j, h[j])])) - F(_shift(p, [(i, h[i]), (j, h[j], -1)]))
+                     - F(_shift(p, [(i, h[i], -1), (j, h[j])])) + F(_shift(p, [(i, h[i], -1), (j, h[j], -1)]))) \
                     / (4 * h[i] * h[j])
             Hm[i, j] = Hm[j, i] = e
     return Hm
 
 
 class _Poisson:
-    """Poisson model linear in its parameters: M_i(p) = fac(pts) * sum_j p_j B_ji  (B > 0, p > 0), symbolic
+    """Poisson model linear (affine) in its parameters: M_i(p) = fac(pts) * (A_i + sum_j p_j B_ji), A >= 0, B > 0,
+    p > 0, symbolic
     data D >= 0 and bootstrap spectra b >= 0, optional relative thetas of the bootstraps."""
 
     def __init__(self, env, k, nbins, nboot, thetas=False, tag=''):
         import dadi
         self.env, self.k, self.nbins, self.nboot = env, k, nbins, nboot
         _CURENV[0] = env
+        del _ATOMS[:]
+        _REFUTED[0] = 0
         self.eps = env.real('eps', lo=EPS_LO, hi=EPS_HI)
-        self.p = [env.real('p%d' % j, lo=0, lo_open=True) for j in range(k)]
-        self.B = [[env.real('B%s%d_%d' % (tag, j, i), lo=0, lo_open=True) for i in range(nbins)] for j in range(k)]
-        self.D = [env.real('D%d' % i, lo=0) for i in range(nbins)]
-        self.boots = [[env.real('b%d_%d' % (b, i), lo=0) for i in range(nbins)] for b in range(nboot)]
-        self.thetas = [env.real('th%d' % b, lo=0, lo_open=True) for b in range(nboot)] if thetas else None
+        self.p = [env.real('p%d' % j, lo=0, lo_open=True, hi=PMAX) for j in range(k)]
+        self.B = [[env.real('B%s%d_%d' % (tag, j, i), lo=BMIN, hi=BMAX) for i in range(nbins)] for j in range(k)]
+        # constant background spectrum A >= 0 (A = 0 is the purely linear model; A > 0 removes the p <-> theta
+        # scaling redundancy that makes J singular for multinom=True)
+        self.A = [env.real('A%d' % i, lo=0, hi=BMAX) for i in range(nbins)]
+        self.D = [env.real('D%d' % i, lo=0, hi=DMAX) for i in range(nbins)]
+        self.boots = [[env.real('b%d_%d' % (b, i), lo=0, hi=DMAX) for i in range(nbins)] for b in range(nboot)]
+        self.thetas = [env.real('th%d' % b, lo=Fr(1, 10), hi=10) for b in range(nboot)] if thetas else None
         self.data = self.spec(self.D)
         self.boot_fs = [self.spec(b) for b in self.boots]
         self.ncalls = 0
@@ -524,7 +782,7 @@ class _Poisson:
             if len(params) != k:
                 raise ValueError('model called with %d parameters' % len(params))
             fac = int(pts[0]) // 10
-            return self.spec([fac * sum(params[j] * B[j][i] for j in range(k)) for i in range(nbins)])
+            return self.spec([fac * (self.A[i] + sum(params[j] * B[j][i] for j in range(k))) for i in range(nbins)])
         return model
 
     def ll(self, q, datavec, th=1, B=None, fac=1, aug=False):
@@ -533,7 +791,7 @@ class _Poisson:
         k = len(B)
         v = 0
         for i in range(self.nbins):
-            M = fac * sum(q[j] * B[j][i] for j in range(k))
+            M = fac * (self.A[i] + sum(q[j] * B[j][i] for j in range(k)))
             if aug:
                 M = q[k] * M
             M = th * M
@@ -546,23 +804,88 @@ class _Poisson:
         boots = self.boots if boots is None else boots
         n = len(p)
         Hm = -_fd_hess(env, lambda q: F(q, self.D, 1), p, eps)
+        if env.symbolic:
+            _register_atoms(list(Hm.ravel()))
         if not boots:
             return Hm, None, None, None
         ths = [1] * len(boots) if thetas is None else thetas
         gs = [_fd_grad(env, (lambda q, b=b: F(q, boots[b], ths[b])), p, eps) for b in range(len(boots))]
+        if env.symbolic:
+            _register_atoms([x for g in gs for x in g])
         J = np.empty((n, n), dtype=object)
         cU = np.empty((n, 1), dtype=object)
         for i in range(n):
             for j in range(n):
                 J[i, j] = sum(g[i] * g[j] for g in gs) / len(boots)
             cU[i, 0] = sum(g[i] for g in gs) / len(boots)
+        _check_regular(env, Hm, 'H')
+        _check_regular(env, J, 'J (needs at least as many bootstraps as parameters)')
         G = np.dot(np.dot(Hm, _inv_exact(J)), Hm)
         return Hm, J, cU, G
 
 
+def _nested_F(F, pfull, nested):
+    def Fn(q, d, th):
+        fullq = list(pfull)
+        for a, idx in enumerate(nested):
+            fullq[idx] = q[a]
+        return F(fullq, d, th)
+    return Fn
+
+
+def _atoms_for(P, pfull, nested_sets=(), F=None, thetas=None):
+    """Evaluate the oracle (full and nested problems) before the code runs: in the symbolic run this registers
+    its H / gradient entries as atoms, in the float replay it is the regularity probe (see _guard)."""
+    F = P.ll if F is None else F
+    P.oracle(F, list(pfull), thetas=thetas)
+    for nested in nested_sets:
+        P.oracle(_nested_F(F, pfull, nested), [pfull[i] for i in nested], thetas=thetas)
+
+
+class _Degenerate(Exception):
+    """Float replay: the oracle's own H / J is (nearly) singular on these inputs."""
+
+
+def _check_regular(env, M, what):
+    """Vacuity / conditioning guard for matrices that get inverted.
+    Symbolic: obligations are discharged under `denominators != 0`; if det(M) vanished identically (e.g. J built
+    from fewer bootstraps than parameters) they would hold vacuously.  det(M), generalised like the obligations,
+    is evaluated at a generic point of the current path: an exact 0 aborts the unit as inconclusive.
+    Float replay: an ill-conditioned M makes inverse-based quantities meaningless -> treated as degenerate."""
+    import z3
+    if not env.symbolic:
+        Mf = np.array(M, dtype=float)
+        if not np.all(np.isfinite(Mf)) or np.linalg.cond(Mf) > 1e6:
+            raise _Degenerate('ill-conditioned %s on the replay inputs' % what)
+        return
+    d = S.Sym.lift(_det([[M[i, j] for j in range(M.shape[1])] for i in range(M.shape[0])]))
+    if d.c is not None:
+        if d.c == 0:
+            raise S.ExplorationLimit('vacuous: det %s == 0' % what)
+        return
+    d4 = _abstract_uf(_abstract(d))
+    if d4.c is not None:
+        return
+    names = sorted(env.vars)
+    npar = len([n for n in names if n.startswith('p') and n[1:].isdigit()])
+    pc = _pc_now()
+    fv = S.free_vars([d4.t])
+    extra = [v for n, v in sorted(fv.items()) if n not in env.vars]
+    for pattern in itertools.product([True, False], repeat=max(npar, 1)):
+        gen = _Generic(pattern)
+        subs = [(env.vars[n].t, z3.RealVal(str(Fr(gen[n])))) for n in names]
+        if not all(_ground(c, subs) is True for c in list(env.pre) + pc):
+            continue
+        subs2 = subs + [(v, z3.RealVal(str(Fr(7 + 13 * i * i + 3 * i, 11 + i)))) for i, v in enumerate(extra)]
+        val = _ground(d4.t, subs2)
+        if val is not None and val is not True and val is not False and val == 0:
+            raise S.ExplorationLimit('vacuous: det %s vanishes at a generic point (identically singular?)' % what)
+        return
+
+
 def _theta_opt(P, p, B=None):
     B = P.B if B is None else B
-    msum = sum(sum(p[j] * B[j][i] for j in range(len(B))) for i in range(P.nbins))
+    msum = sum(P.A[i] + sum(p[j] * B[j][i] for j in range(len(B))) for i in range(P.nbins))
     return sum(P.D) / msum
 
 
@@ -573,10 +896,10 @@ def godambe_body(k, nbins, nboot, thetas=False):
         from dadi import Godambe
         P = _Poisson(env, k, nbins, nboot, thetas=thetas)
         model = P.make_model()
+        Ho, Jo, cUo, Go = P.oracle(P.ll, P.p, thetas=P.thetas)
         _clear_cache()
         kw = dict(boot_theta_adjusts=list(P.thetas)) if thetas else {}
         G, Hc, J, cU = Godambe.get_godambe(model, [10], list(P.boot_fs), list(P.p), P.data, P.eps, **kw)
-        Ho, Jo, cUo, Go = P.oracle(P.ll, P.p, thetas=P.thetas)
         _eqm(env, 'H', Hc, Ho)
         _eqm(env, 'J', J, Jo)
         _eqm(env, 'cU', cU, cUo)
@@ -594,7 +917,8 @@ def perm_body(k, nbins, nboot, perm, thetas=False):
         from dadi import Godambe
         P = _Poisson(env, k, nbins, nboot, thetas=thetas)
         model = P.make_model()
-        full = [env.real('f%d' % j, lo=0, lo_open=True) for j in range(k)]
+        full = [env.real('f%d' % j, lo=0, lo_open=True, hi=PMAX) for j in range(k)]
+        _atoms_for(P, P.p, nested_sets=([0],), thetas=P.thetas)
 
         def run(order):
             bl = [P.boot_fs[b] for b in order]
@@ -647,6 +971,9 @@ def stats_body(k, nbins, nboot, nested, multinom=False, thetas=False, full_len='
             F = P.ll
         # --- full-parameter uncertainties
         Ho, Jo, cUo, Go = P.oracle(F, paug, thetas=P.thetas)
+        Fn = _nested_F(F, paug, nested)
+        pn = [paug[idx] for idx in nested]
+        Hn, Jn, cUn, Gn = P.oracle(Fn, pn, thetas=P.thetas)
         _clear_cache()
         u, Hc = Godambe.FIM_uncert(model, [10], list(p), P.data, multinom=multinom, eps=P.eps, return_FIM=True)
         _eqm(env, 'FIM:H', Hc, Ho)
@@ -665,20 +992,13 @@ def stats_body(k, nbins, nboot, nested, multinom=False, thetas=False, full_len='
         for i in range(len(paug)):
             _eqv(env, 'GIM_uncert[%d]' % i, ug[i], _sqrt(Gi[i, i]), struct=True)
         # --- nested-parameter statistics: derivatives only w.r.t. the nested parameters, the rest from p0
-        def Fn(q, d, th):
-            fullq = list(paug)
-            for a, idx in enumerate(nested):
-                fullq[idx] = q[a]
-            return F(fullq, d, th)
-        pn = [paug[idx] for idx in nested]
-        Hn, Jn, cUn, Gn = P.oracle(Fn, pn, thetas=P.thetas)
         _clear_cache()
         adj = Godambe.LRT_adjust(model, [10], boots, list(p), P.data, list(nested), multinom=multinom, eps=P.eps,
                                  **tkw)
         JHi = np.dot(Jn, _inv_exact(Hn))
         _eqv(env, 'LRT_adjust', adj, m / sum(JHi[a, a] for a in range(m)))
         if not thetas:
-            fullv = [env.real('f%d' % j, lo=0, lo_open=True) for j in range(k)]
+            fullv = [env.real('f%d' % j, lo=0, lo_open=True, hi=PMAX) for j in range(k)]
             fp = [fullv[idx] for idx in nested]
             fp_in = list(fp) if full_len == 'nested' else list(fullv)
             fp_in = np.array(fp_in, dtype=object if env.symbolic else float)
@@ -745,14 +1065,16 @@ def cache_stale_body(stat, nested_idx):
         P = _Poisson(env, 2, 3, 2)
         model = P.make_model()
         other = 1 - nested_idx
-        alt = env.real('palt', lo=0, lo_open=True)
+        alt = env.real('palt', lo=0, lo_open=True, hi=PMAX)
         env.assume(alt != P.p[other])
-        full = [env.real('f%d' % j, lo=0, lo_open=True) for j in range(2)]
+        full = [env.real('f%d' % j, lo=0, lo_open=True, hi=PMAX) for j in range(2)]
         call = _stat_call(stat, model, P, full)
         pa = list(P.p)
         pb = list(P.p)
         pb[other] = alt
         nested = [nested_idx]
+        _atoms_for(P, pa, nested_sets=(nested,))
+        _atoms_for(P, pb, nested_sets=(nested,))
         _clear_cache()
         r1 = call(list(pa), nested); r2 = call(list(pb), nested)
         _clear_cache()
@@ -783,9 +1105,11 @@ class _HashCollide:
 def cache_hash_body(env):
     from dadi import Godambe
     P = _Poisson(env, 2, 3, 2)
-    B2 = [[env.real('C%d_%d' % (j, i), lo=0, lo_open=True) for i in range(3)] for j in range(2)]
+    B2 = [[env.real('C%d_%d' % (j, i), lo=BMIN, hi=BMAX) for i in range(3)] for j in range(2)]
     mA = _HashCollide(P.make_model())
     mB = _HashCollide(P.make_model(B2))
+    _atoms_for(P, P.p)
+    _atoms_for(P, P.p, F=lambda q, d, th: P.ll(q, d, th, B=B2))
     _clear_cache()
     a = Godambe.get_godambe(mA, [10], list(P.boot_fs), list(P.p), P.data, P.eps)
     b = Godambe.get_godambe(mB, [10], list(P.boot_fs), list(P.p), P.data, P.eps)
@@ -801,17 +1125,21 @@ def cache_history_body(scenario):
     """Sequences of calls sharing the module cache give the results of a fresh cache."""
     def body(env):
         from dadi import Godambe
-        P = _Poisson(env, 2, 3, 2)
+        k, nbins = (1, 2) if scenario == 'model-multinom' else (2, 3)
+        P = _Poisson(env, k, nbins, 2)
         model = P.make_model()
         boots = list(P.boot_fs)
+        if scenario != 'model-multinom':
+            _atoms_for(P, P.p)
         if scenario == 'params':
-            q = [env.real('q%d' % j, lo=0, lo_open=True) for j in range(2)]
+            q = [env.real('q%d' % j, lo=0, lo_open=True, hi=PMAX) for j in range(2)]
+            _atoms_for(P, q)
             seq = [lambda: Godambe.get_godambe(model, [10], boots, list(P.p), P.data, P.eps),
                    lambda: Godambe.get_godambe(model, [10], boots, list(q), P.data, P.eps)]
         elif scenario == 'same-twice':
             seq = [lambda: Godambe.get_godambe(model, [10], boots, list(P.p), P.data, P.eps)] * 2
         elif scenario == 'data':
-            D2 = P.spec([env.real('E%d' % i, lo=0) for i in range(3)])
+            D2 = P.spec([env.real('E%d' % i, lo=0, hi=DMAX) for i in range(3)])
             seq = [lambda: Godambe.get_godambe(model, [10], boots, list(P.p), P.data, P.eps),
                    lambda: Godambe.get_godambe(model, [10], boots, list(P.p), D2, P.eps)]
         elif scenario == 'pts':
@@ -821,12 +1149,23 @@ def cache_history_body(scenario):
             e2 = env.real('eps2', lo=EPS_LO, hi=EPS_HI)
             seq = [lambda: Godambe.get_godambe(model, [10], boots, list(P.p), P.data, P.eps),
                    lambda: Godambe.get_godambe(model, [10], boots, list(P.p), P.data, e2)]
-        elif scenario == 'model':
-            B2 = [[env.real('C%d_%d' % (j, i), lo=0, lo_open=True) for i in range(3)] for j in range(2)]
+        elif scenario in ('model', 'model-multinom'):
+            mn = scenario == 'model-multinom'
+            B2 = [[env.real('C%d_%d' % (j, i), lo=BMIN, hi=BMAX) for i in range(nbins)] for j in range(k)]
             m2 = P.make_model(B2)
-            seq = [lambda: Godambe.GIM_uncert(model, [10], boots, list(P.p), P.data, multinom=True, eps=P.eps,
+            if not mn:
+                _atoms_for(P, P.p, F=lambda qq, d, th: P.ll(qq, d, th, B=B2))
+            if mn:
+                tot = P.D[0]
+                for v in P.D[1:]:
+                    tot = tot + v
+                env.assume(tot > 0)
+                _atoms_for(P, list(P.p) + [_theta_opt(P, P.p)], F=lambda qq, d, th: P.ll(qq, d, th, aug=True))
+                _atoms_for(P, list(P.p) + [_theta_opt(P, P.p, B=B2)],
+                           F=lambda qq, d, th: P.ll(qq, d, th, B=B2, aug=True))
+            seq = [lambda: Godambe.GIM_uncert(model, [10], boots, list(P.p), P.data, multinom=mn, eps=P.eps,
                                               return_GIM=True)[1:],
-                   lambda: Godambe.GIM_uncert(m2, [10], boots, list(P.p), P.data, multinom=True, eps=P.eps,
+                   lambda: Godambe.GIM_uncert(m2, [10], boots, list(P.p), P.data, multinom=mn, eps=P.eps,
                                               return_GIM=True)[1:]]
         elif scenario == 'fim-then-gim':
             seq = [lambda: (Godambe.FIM_uncert(model, [10], list(P.p), P.data, multinom=False, eps=P.eps,
@@ -918,8 +1257,9 @@ def linalg_stub_body(env):
 
 
 def _guard(body):
-    """Float replay only: a singular matrix met on the model's (possibly degenerate) float inputs is not a
-    reproduction of anything; every other exception still counts."""
+    """Float replay only: bodies evaluate the oracle before the code; if the oracle's own H / J is (nearly)
+    singular on the replay inputs (degenerate solver model) nothing can be compared and the run is ignored.
+    Every other exception - including a LinAlgError raised by the code on regular inputs - counts."""
     def wrapped(env):
         if env.symbolic:
             return body(env)
@@ -928,9 +1268,86 @@ def _guard(body):
             warnings.simplefilter('ignore')
             try:
                 return body(env)
-            except np.linalg.LinAlgError:
-                env.note('singular matrix on the float replay inputs: degenerate, ignored')
+            except _Degenerate as e:
+                env.note('degenerate float replay inputs, ignored: %s' % e)
     return wrapped
+
+
+class _Generic(dict):
+    """Deterministic generic float inputs by variable name (used by the replay when the solver's model leaves
+    the inputs at degenerate values, which happens for refutations of abstracted identities that do not depend
+    on the inputs).  variant: 'central' | 'tiny' | 'mixed' picks the stencil regimes of the parameters."""
+    def __init__(self, variant, base=None):
+        dict.__init__(self)
+        self.variant = variant
+        self.base = base or {}
+
+    def __contains__(self, k):
+        return True
+
+    def _p(self, j, central):
+        return 1.3 + 0.8 * j if central else 1e-6 * (1 + j)
+
+    def __getitem__(self, name):
+        import re
+        m = re.match(r'^([A-Za-z]+?)(\d+)?(?:_(\d+))?(?:_(\d+))?$', name)
+        if not m:
+            return self.base.get(name, '0')
+        pre, i, j = m.group(1), int(m.group(2) or 0), int(m.group(3) or 0)
+        if isinstance(self.variant, tuple):
+            cen = self.variant[i] if (pre == 'p' and i < len(self.variant)) else True
+        else:
+            cen = {'central': True, 'tiny': False, 'mixed': (i % 2 == 1)}[self.variant]
+        if name == 'eps':
+            v = 0.01
+        elif name == 'eps2':
+            v = 0.03
+        elif name == 'palt':
+            v = 2.9 if self.variant != 'tiny' else 3e-6
+        elif pre == 'p':
+            v = self._p(i, cen)
+        elif pre == 'q':
+            v = 0.7 + 0.5 * i
+        elif pre == 'f':
+            v = 1.7 + 0.4 * i
+        elif pre == 'A':
+            v = 4.0 + ((i * i * 5 + i * 3 + 1) % 7)
+        elif pre == 'B':
+            v = 1.0 + 0.35 * ((i * 7 + j * j * 3 + i * j * 5 + (i + 1) * (i + 1) * (j + 2) + 2) % 11) + 0.13 * j
+        elif pre == 'C':
+            v = 0.8 + 0.7 * (((j + 2) * (i + 1)) % 5) + 0.21 * i
+        elif pre == 'D':
+            v = 10 + 3 * i - (i * i % 3)
+        elif pre == 'E':
+            v = 6 + 2 * i + (i * i % 2)
+        elif pre == 'b':
+            v = 5 + ((i * 37 + j * 11 + i * i * j * 5 + (i + 2) * (j + 1) * (j + 1) * 3 + 3) % 13) + 0.25 * i
+        elif pre == 'th':
+            v = 0.9 + 0.15 * i
+        else:
+            return self.base.get(name, '0')
+        return repr(float(v))
+
+
+def _make_replay(gbody):
+    """Replay on the real float code: first the solver's values; if those are degenerate / do not show the
+    failure, deterministic generic inputs in each stencil regime.  Any failing obligation on the real code is a
+    genuine witness; none -> not reproduced."""
+    def replay(values):
+        tried = []
+        for tag, vals in (('model', values), ('generic-central', _Generic('central', values)),
+                          ('generic-tiny', _Generic('tiny', values)), ('generic-mixed', _Generic('mixed', values))):
+            env = H.ConcEnv(None, vals)
+            try:
+                gbody(env)
+            except Exception as e:
+                env.failed.append(('unexpected-exception:%s:%s' % (type(e).__name__, str(e)[:160]), None, None))
+            tried.append((tag, env.checked, len(env.failed)))
+            if env.failed:
+                return dict(reproduced=True, inputs=tag, failed=[(l, a, b) for l, a, b in env.failed[:10]],
+                            checked=env.checked, tried=tried)
+        return dict(reproduced=False, failed=[], tried=tried)
+    return replay
 
 
 def units(tier, seed):
@@ -976,16 +1393,27 @@ def units(tier, seed):
                                  min_obligations=81 * 5, expect_paths=81, timeout_s=1500, maxpaths=4000))
 
     # ---------------- part 2: linear Poisson models
-    def U(name, body, params, **kw):
+    def U(name, body, params, generic=True, **kw):
         kw.setdefault('timeout_s', 900)
         kw.setdefault('maxpaths', 4000)
-        us.append(H.Unit(name, _guard(body), params=params, setup=_setup_full, **kw))
+        gb = _guard(body)
+        # generic=True: Poisson-model bodies, whose replay may fall back to deterministic generic inputs
+        us.append(H.Unit(name, gb, params=params, setup=_setup_full, replay=_make_replay(gb) if generic else None,
+                         **kw))
 
     nb = 3
-    gg = [(1, 2, False), (2, 2, False), (2, 2, True)] + ([(2, 3, True), (3, 2, False)] if thorough else [])
+    gg = [(1, 2, False), (2, 2, False), (2, 2, True)] + ([(2, 3, True), (3, 3, False)] if thorough else [])
     for k, nboot, th in gg:
         U('godambe-k%d-b%d%s' % (k, nboot, '-thetas' if th else ''), godambe_body(k, nb, nboot, thetas=th),
           dict(k=k, nbins=nb, nboot=nboot, thetas=th), min_obligations=2 ** k * (3 * k * k + k), expect_paths=2 ** k)
+    if thorough:
+        U('godambe-k3-b3-thetas', godambe_body(3, nb, 3, thetas=True), dict(k=3, nbins=nb, nboot=3, thetas=True),
+          min_obligations=8 * 30, expect_paths=8)
+        U('godambe-k2-b2-bins4', godambe_body(2, 4, 2), dict(k=2, nbins=4, nboot=2, thetas=False),
+          min_obligations=4 * 14, expect_paths=4)
+        U('stats-k2-nested1-bins4', stats_body(2, 4, 2, [1], full_len='nested'),
+          dict(k=2, nbins=4, nboot=2, nested=[1], multinom=False, thetas=False, full_params='nested'),
+          min_obligations=50, expect_paths=4)
     perms = [(1, 0, 2), (2, 0, 1)] + ([(0, 2, 1), (2, 1, 0), (1, 2, 0)] if thorough else [])
     for pi, perm in enumerate(perms):
         th = (pi % 2 == 1)
@@ -994,16 +1422,18 @@ def units(tier, seed):
           min_obligations=4 * 10, expect_paths=4)
     U('bootperm-k1-b2-10', perm_body(1, nb, 2, (1, 0)), dict(k=1, nbins=nb, nboot=2, perm=[1, 0]),
       min_obligations=2 * 5, expect_paths=2)
+    # (k, nested, multinom, thetas, full_params form); J must be regular: bootstraps >= differentiated parameters
     st = [(2, [0], False, False, 'nested'), (2, [1], False, False, 'p0'), (2, [0, 1], False, False, 'nested'),
           (2, [0], True, False, 'nested'), (2, [1], True, False, 'p0'), (2, [0], False, True, 'nested')]
     if thorough:
         st += [(3, [0, 2], False, False, 'p0'), (3, [1], False, False, 'nested'), (2, [0, 1], True, False, 'p0'),
                (3, [2, 0], False, True, 'nested'), (1, [0], True, False, 'nested')]
     for k, nested, mn, th, fl in st:
+        nboot = max(2, k + (1 if mn else 0))
         U('stats-k%d-nested%s%s%s-full_%s' % (k, ''.join(map(str, nested)), '-multinom' if mn else '',
                                               '-thetas' if th else '', fl),
-          stats_body(k, nb, 2, nested, multinom=mn, thetas=th, full_len=fl),
-          dict(k=k, nbins=nb, nboot=2, nested=nested, multinom=mn, thetas=th, full_params=fl),
+          stats_body(k, nb, nboot, nested, multinom=mn, thetas=th, full_len=fl),
+          dict(k=k, nbins=nb, nboot=nboot, nested=nested, multinom=mn, thetas=th, full_params=fl),
           min_obligations=10, expect_paths=2 ** (k + (1 if mn else 0)))
     U('reject-thetas-with-multinom', reject_body, {}, min_obligations=2)
     for stat in ('LRT_adjust', 'Wald_stat', 'score_stat'):
@@ -1011,19 +1441,20 @@ def units(tier, seed):
             U('cache-stale-%s-nested%d' % (stat, ni), cache_stale_body(stat, ni), dict(stat=stat, nested=[ni]),
               min_obligations=4, expect_paths=2)
     U('cache-stale-hashcollide', cache_hash_body, {}, min_obligations=4 * 14, expect_paths=4)
-    for sc in ('params', 'same-twice', 'data', 'pts', 'eps', 'model', 'fim-then-gim'):
-        U('cache-history-%s' % sc, cache_history_body(sc), dict(scenario=sc), min_obligations=8, expect_paths=4)
+    for sc in ('params', 'same-twice', 'data', 'pts', 'eps', 'model', 'model-multinom', 'fim-then-gim'):
+        U('cache-history-%s' % sc, cache_history_body(sc), dict(scenario=sc), min_obligations=8,
+          expect_paths=2 if sc == 'model-multinom' else 4)
     chi = [('scalar', 1, 2), ('scalar', 1, 3), ('list', 1, 2), ('list', 2, 2), ('ndarray', 2, 3), ('tuple', 2, 2)]
     if thorough:
         chi += [('list', 3, 3), ('ndarray', 3, 4), ('ndarray', 1, 2), ('scalar', 1, 4)]
     for form, n, nw in chi:
         nm = 'chi2-%s-n%d-w%d' % (form if form == 'scalar' else 'array-' + form, n, nw)
-        U(nm, chi2_body(form, n, nw), dict(x=form, n=n, nweights=nw), min_obligations=2 ** n * (n + 1),
-          expect_paths=2 ** n)
+        U(nm, chi2_body(form, n, nw), dict(x=form, n=n, nweights=nw), generic=False,
+          min_obligations=2 ** n * (n + 1), expect_paths=2 ** n)
     U('chi2-scalar-defaultw', chi2_body('scalar', 1, 2, default_w=True), dict(x='scalar', weights='default'),
-      min_obligations=4, expect_paths=2)
+      generic=False, min_obligations=4, expect_paths=2)
     U('chi2-array-list-n2-defaultw', chi2_body('list', 2, 2, default_w=True), dict(x='list', n=2, weights='default'),
-      min_obligations=12, expect_paths=4)
-    U('chi2-reject-weights', chi2_reject_body, {}, min_obligations=1)
-    U('linalg-stub-contract', linalg_stub_body, {}, min_obligations=14)
+      generic=False, min_obligations=12, expect_paths=4)
+    U('chi2-reject-weights', chi2_reject_body, {}, generic=False, min_obligations=1)
+    U('linalg-stub-contract', linalg_stub_body, {}, generic=False, min_obligations=14)
     return us
